@@ -8,7 +8,7 @@ import io
 
 from . import env, simdev, tlc, wire
 
-PAY = {i: (b'<rec%d>' % i) * (i + 1) for i in range(1, 9)}          # payload / file name of the record at position i
+PAY = {i: (b'<rec%d\xff\xc3>' % i) * (i + 1) for i in range(1, 9)}          # payload / file name of the record at position i (not valid UTF-8: the library treats these bytes as opaque)
 
 
 def rows(ctx, maxrec):
@@ -52,7 +52,7 @@ class Sink(io.BytesIO):
         return io.BytesIO.write(self, b)
 
 
-def run_row(mode, row, cuts=None, close_unacked=False):
+def run_row(mode, row, cuts=None, close_unacked=False, stall='raise'):
     op, script, fail_at = row['op'], row['script'], row['failAt']
     dev = simdev.SimDevice(seed=len(script))
     reply = render('pull' if op == 'pullcb' else op, script)
@@ -67,8 +67,8 @@ def run_row(mode, row, cuts=None, close_unacked=False):
         return simdev.RawSyncService(reply, cuts, then_close='CLSE' in script, close_unacked=close_unacked)
     dev.service_for = service_for
     dev.fs.add('/f', b'x' * 17)
-    sess = env.Session(mode, dev, tick=0.001)
-    sess.core.max_calls = 4000
+    sess = env.Session(mode, dev, tick=0.001, stall=stall)          # stall: what the transport does when nothing arrives (its own timeout error / empty reads)
+    sess.core.max_calls = 40000
     sess.call('connect')
     n0 = len(dev.rec.events)
     sink = Sink(fail_at)
